@@ -1219,6 +1219,13 @@ func (a *Assembler) closeHalfConnection(conn *connection, half *halfconnection) 
 		half.pages--
 	}
 
+	// Pages the stream asked to keep are not needed once the half is closed.
+	for p := half.saved; p != nil; p = next {
+		next = p.next
+		a.pc.replace(p)
+	}
+	half.saved = nil
+
 	if conn.s2c.closed && conn.c2s.closed {
 		if half.stream.ReassemblyComplete(nil) { //FIXME: which context to pass ?
 			a.connPool.remove(conn)
